@@ -4,6 +4,7 @@ import (
 	"bufio"
 	"fmt"
 	"go/ast"
+	"go/token"
 	"go/types"
 	"os"
 	"sort"
@@ -281,7 +282,177 @@ func (p *Prog) Flatten(anchors map[string]bool) ([]string, error) {
 			}
 		}
 	}
+	// a literal all of whose calls were inlined is no longer part of the program:
+	// drop what keeps it formally alive (the variable it was bound to)
+	if len(log) > 0 {
+		for round := 0; round < 6; round++ {
+			changed := false
+			for _, f := range funcs {
+				if pruneDeadLiteralBindings(f) {
+					f.Rebuild()
+					// variables the literal had captured can live in registers again
+					f.Relift()
+					if err := f.SanityCheck(); err != nil {
+						return log, fmt.Errorf("flatten: %v", err)
+					}
+					changed = true
+				}
+			}
+			// literals nothing creates any more
+			created := map[*ssa.Function]bool{}
+			var rands []*ssa.Value
+			for _, f := range funcs {
+				if p.deadLits[f] {
+					continue
+				}
+				for _, b := range f.Blocks {
+					for _, in := range b.Instrs {
+						rands = in.Operands(rands[:0])
+						for _, r := range rands {
+							if g, ok := (*r).(*ssa.Function); ok && g.Parent() != nil {
+								created[g] = true
+							}
+						}
+					}
+				}
+			}
+			for _, f := range funcs {
+				for _, lists := range [][]*ssa.Function{f.AnonFuncs, f.InlinedAnonFuncs()} {
+					for _, a := range lists {
+						if changed && !created[a] && !p.deadLits[a] {
+							if p.deadLits == nil {
+								p.deadLits = map[*ssa.Function]bool{}
+							}
+							p.deadLits[a] = true
+							log = append(log, fmt.Sprintf("%s: literal %s is no longer created", p.FuncName(f), a.Name()))
+						}
+					}
+				}
+			}
+			if !changed {
+				break
+			}
+		}
+	}
 	return log, nil
+}
+
+// pruneDeadLiteralBindings removes from f (1) loads of local variables and
+// captured variables whose value is not used, (2) stores of function literals
+// into local variables that nothing reads any more, and (3) the creation of
+// literals whose value is not used. It reports whether f changed.
+func pruneDeadLiteralBindings(f *ssa.Function) bool {
+	dead := map[ssa.Instruction]bool{}
+	unused := func(v ssa.Value) bool {
+		refs := v.Referrers()
+		if refs == nil {
+			return false
+		}
+		for _, r := range *refs {
+			if _, ok := r.(*ssa.DebugRef); !ok && !dead[r] {
+				return false
+			}
+		}
+		return true
+	}
+	for _, b := range f.Blocks {
+		for _, in := range b.Instrs {
+			if u, ok := in.(*ssa.UnOp); ok && u.Op == token.MUL && unused(u) {
+				switch u.X.(type) {
+				case *ssa.Alloc, *ssa.FreeVar:
+					dead[u] = true
+				}
+			}
+		}
+	}
+	// a variable that only receives function literals and is read by nobody:
+	// neither here nor in the literals that capture it
+	for _, b := range f.Blocks {
+		for _, in := range b.Instrs {
+			al, ok := in.(*ssa.Alloc)
+			if !ok {
+				continue
+			}
+			var stores []ssa.Instruction
+			onlyLits := true
+			for _, r := range *al.Referrers() {
+				switch x := r.(type) {
+				case *ssa.Store:
+					if x.Addr != ssa.Value(al) {
+						onlyLits = false
+						break
+					}
+					v := x.Val
+					if ct, ok := v.(*ssa.ChangeType); ok {
+						v = ct.X
+					}
+					if _, isLit := v.(*ssa.MakeClosure); !isLit {
+						onlyLits = false
+					}
+					stores = append(stores, x)
+				case *ssa.UnOp:
+					if !dead[x] {
+						onlyLits = false
+					}
+				case *ssa.MakeClosure:
+					fn, _ := x.Fn.(*ssa.Function)
+					for i, bv := range x.Bindings {
+						if bv == ssa.Value(al) && (fn == nil || i >= len(fn.FreeVars) || len(*fn.FreeVars[i].Referrers()) != 0) {
+							onlyLits = false
+						}
+					}
+				case *ssa.DebugRef:
+				default:
+					onlyLits = false
+				}
+			}
+			if onlyLits && len(stores) > 0 {
+				for _, s := range stores {
+					dead[s] = true
+				}
+			}
+		}
+	}
+	for _, b := range f.Blocks {
+		for _, in := range b.Instrs {
+			switch x := in.(type) {
+			case *ssa.MakeClosure:
+				if unused(x) {
+					dead[x] = true
+				}
+			case *ssa.ChangeType:
+				if _, isLit := x.X.(*ssa.MakeClosure); isLit && unused(x) {
+					dead[x] = true
+				}
+			}
+		}
+	}
+	// a second look: literals only used by a type change that just died
+	for _, b := range f.Blocks {
+		for _, in := range b.Instrs {
+			if x, ok := in.(*ssa.MakeClosure); ok && !dead[x] && unused(x) {
+				dead[x] = true
+			}
+		}
+	}
+	if len(dead) == 0 {
+		return false
+	}
+	for _, b := range f.Blocks {
+		keep := b.Instrs[:0:0]
+		for _, in := range b.Instrs {
+			if dr, ok := in.(*ssa.DebugRef); ok {
+				if xi, ok := dr.X.(ssa.Instruction); ok && dead[xi] {
+					continue
+				}
+			}
+			if !dead[in] {
+				keep = append(keep, in)
+			}
+		}
+		b.Instrs = keep
+	}
+	return true
 }
 
 func allInstances(p *Prog) map[*ssa.Function]bool {
